@@ -4,6 +4,7 @@ import RedactVerif.Props.L2
 import RedactVerif.Props.FactsConsts
 import RedactVerif.Props.FactsSkelBuffer
 import RedactVerif.Props.TransBuffer
+import RedactVerif.Props.TransEscape
 /-
 C01 — every produced string is a well-formed redactable string
 (and C03's "no envelope spans a line break": `WFL` = well-formed + line-safe).
